@@ -279,6 +279,7 @@ def run(prog, rep):
                     "that returns its argument makes copy and original share the inner lists of tuple values")
 
     eq1_rule(prog, rep)
+    clone2_rule(prog, rep)
 
     # ----------------------------------------------------------------- LEAF-1
     rep.rule("LEAF-1", "Section.export_leaf: every clone call passes keep_id=True; the Section clones pass children=False; "
@@ -351,6 +352,16 @@ def run(prog, rep):
     rep.check(good or deep, "ALIAS-3", "values getter copies the list and inner lists", unparse(rets[0])[:70] if rets else "",
               "the values getter returns %s: the stored list (or the inner lists of n-tuple values) is shared with the caller"
               % (unparse(rets[0])[:70] if rets else "nothing"), vg.where, witness="p.values[0].append('z') on a 2-tuple Property changes p")
+    # no other read accessor (the deprecated `value`, __getitem__ slices aside) hands out the stored list itself
+    pc = prog.cls("BaseProperty")
+    for pname in sorted(pc.props):
+        gt = pc.lookup_prop(pname, "getter")
+        if gt is None or gt is vg or not gt.params:
+            continue
+        for r0 in [n.value for n in walk_no_nested(gt.node) if isinstance(n, ast.Return) and n.value is not None]:
+            rep.check(unparse(r0) != "%s._values" % gt.params[0], "ALIAS-3", "BaseProperty.%s does not hand out the stored list" % pname, unparse(r0)[:50],
+                      "the getter of BaseProperty.%s returns self._values itself: the caller edits the Property's value list without conversion"
+                      % pname, where(gt, r0), witness="p.%s.append('x') changes an int Property" % pname)
     for name in ("extend", "append", "insert", "__setitem__"):
         f = prog.cls("BaseProperty").lookup_method(name)
         rep.saw_function(f)
@@ -459,3 +470,40 @@ def eq1_rule(prog, rep, rule="EQ-1"):
               "BaseObject.__eq__ treats %s specially: objects that differ there compare equal" % extra,
               where(at[0][0], at[0][1]) if at else f.where,
               witness="two Sections that differ only in that attribute are == ; a restored / copied document is reported equal although it is not")
+
+
+def clone2_rule(prog, rep, rule="CLONE-2"):
+    """clone() re-binds the containers and the parent pointer of the copy and nothing else"""
+    rep.rule(rule, "in the clone functions of the model classes every store to an attribute of the copy goes to a container field (fresh child / "
+                   "value list), to _parent, or through the values setter; the id changes only through new_id(). Any other attribute of the copy "
+                   "is what copy.copy took from the original - storing something else there (an inherited repository made explicit, a reset "
+                   "definition) makes the copy differ from its original, and unmerge(), which removes copies that are == their source, leaves it behind")
+    n = 0
+    done = set()
+    allowed_all = set()
+    for cname in MODEL:
+        allowed_all |= set(container_fields(prog.cls(cname)))
+    for cname in MODEL:
+        cls = prog.cls(cname)
+        allowed = set(allowed_all) | set(["_parent", "values", "_values"])
+        for f in clone_chain(prog, cls):
+            if f.qualname in done:
+                continue
+            done.add(f.qualname)
+            rep.saw_function(f)
+            copies = set()
+            for st in walk_no_nested(f.node):
+                if isinstance(st, ast.Assign) and len(st.targets) == 1 and isinstance(st.targets[0], ast.Name) and isinstance(st.value, ast.Call):
+                    t = unparse(st.value.func)
+                    if t.endswith(".clone") or t in ("copy.copy", "copy"):
+                        copies.add(st.targets[0].id)
+            for st in walk_no_nested(f.node):
+                tgts = st.targets if isinstance(st, ast.Assign) else [st.target] if isinstance(st, (ast.AugAssign, ast.AnnAssign)) else []
+                for t in tgts:
+                    if isinstance(t, ast.Attribute) and isinstance(t.value, ast.Name) and t.value.id in copies:
+                        n += 1
+                        rep.check(t.attr in allowed, rule, "%s: %s.%s" % (f.short, t.value.id, t.attr), "container field / _parent / values",
+                                  "%s stores `%s` into %s.%s: the copy no longer equals its original in that attribute"
+                                  % (f.short, unparse(st.value)[:50] if getattr(st, "value", None) is not None else "?", t.value.id, t.attr), where(f, st),
+                                  witness="finalize() then clean(): the copies of linked sub-Sections are not == their sources any more and stay in the document")
+    rep.floor(rule, n, 3, "stores on the copy in the clone functions")
